@@ -35,7 +35,7 @@ def is_exact(curves):
 def expr_is_rational(e):
     """True iff every leaf of the expression stores int/Fraction coordinates."""
     for l in al.expr_leaves(e):
-        if l[0] == "L":
+        if l[0] in ("L", "WL"):
             d = al.leaf_data(l[1])
             if d[0] != "verts":
                 return False
